@@ -24,7 +24,7 @@ var gGivenModes = []string{"", "JRWPS", "JRWP", "JWP", "JRP", "JRW", "RWP", "N",
 // c02Gen: users 0 (owner, optionally root), 1, 2 members/readers, 3 stranger.
 func c02Gen(rt *rapid.T) wProg {
 	p := wProg{}
-	p.Cfg = wConfig{Users: 4, Root: gPct(rt, 35)}
+	p.Cfg = wConfig{Users: 4, Root: gPct(rt, 35), Media: true}
 	p.Sess = append([]int(nil), gPick(rt, [][]int{{0, 1, 2}, {0, 0, 1, 2}, {0, 1, 1, 2}, {0, 1, 2, 3}, {0, 0, 1, 1, 2, 3}, {0, 1, 2, 2, 3}}, "layout")...)
 	isChan := gPct(rt, 35)
 	kind := "new"
@@ -145,6 +145,10 @@ func c02Gen(rt *rapid.T) wProg {
 					break
 				}
 			}
+		case y >= 92:
+			// a publish with an uploaded attachment while the store fails at one of its writes
+			p.Ops = append(p.Ops, wOp{K: "upload", S: s}, wOp{K: "fault", N: gInt(rt, 1, 4, "k"), A: gPick(rt, []string{"", "FileLinkAttachments", "SubsUpdate", "MessageSave"}, "m")},
+				wOp{K: "pub", S: s, T: topicFor(s), X: []string{"$file0"}}, wOp{K: "pub", S: s, T: topicFor(s)})
 		case y < 8 && p.Cfg.Root:
 			// P2P: one participant unsubscribes, the topic unloads, the other one is suspended, the first
 			// comes back (the topic is loaded with one subscription missing) and publishes
@@ -372,6 +376,31 @@ func (o *c03Obs) After(w *wWorld, st *wStep) *kit.Viol {
 	if st.Op.K != "pub" || st.Skipped {
 		return nil
 	}
+	// a rejected publish has no effect: no message row, no consumed id
+	if code := st.code(); code >= 400 && st.Route != "" {
+		count := func(ms *mem.State) (n, seq int) {
+			for _, m := range ms.Msgs {
+				if m.Topic == st.Route {
+					n++
+				}
+			}
+			for _, tr := range ms.Topics {
+				if tr.Name == st.Route {
+					seq = tr.SeqId
+				}
+			}
+			return
+		}
+		post := mem.A.Snapshot()
+		n0, s0 := count(o.pre)
+		n1, s1 := count(post)
+		if n1 != n0 {
+			return kit.V("refused-publish-stored", "publish %s by session %d on %s was refused with %d but the topic has %d stored messages now (%d before)", st.Token, st.Sess, st.Route, code, n1, n0)
+		}
+		if s1 != s0 && !st.Fired {
+			return kit.V("refused-publish-consumed-id", "publish %s by session %d on %s was refused with %d but the stored message counter went from %d to %d", st.Token, st.Sess, st.Route, code, s0, s1)
+		}
+	}
 	c := st.reply()
 	if c == nil {
 		// refused before the handler ran (on-behalf-of from a non-root session): the reply has no id
@@ -392,7 +421,7 @@ func (o *c03Obs) After(w *wWorld, st *wStep) *kit.Viol {
 	if got && !accept {
 		return kit.V("accepted-without-right:"+why, "publish %s by user %d (session %d) on %s was accepted (202) although: %s", st.Token, st.User, st.Sess, st.Route, why)
 	}
-	if !got && accept {
+	if !got && accept && !st.Fired { // a store failure inside the request is a legitimate reason for a 5xx
 		return kit.V("refused-with-right", "publish %s by user %d (session %d) on %s was refused with %d %s although the author is an attached writer (%s)", st.Token, st.User, st.Sess, st.Route, c.Code, c.Text, why)
 	}
 	if got {
@@ -409,6 +438,12 @@ func (o *c03Obs) After(w *wWorld, st *wStep) *kit.Viol {
 	post := mem.A.Snapshot()
 	if len(post.Msgs) != len(o.pre.Msgs) {
 		return kit.V("refused-publish-stored", "refused publish %s (%d) changed the message table (%d -> %d rows)", st.Token, c.Code, len(o.pre.Msgs), len(post.Msgs))
+	}
+	if st.Fired {
+		// Save makes up to three store writes; which of them a failing publish leaves behind is the
+		// business of C01 (listed finding number-burnt-by-failed-save) and C08. The message itself
+		// must not be stored (checked above).
+		return nil
 	}
 	for i, tr := range post.Topics {
 		if i < len(o.pre.Topics) && (tr.SeqId != o.pre.Topics[i].SeqId || !tr.TouchedAt.Equal(o.pre.Topics[i].TouchedAt)) {
